@@ -120,6 +120,13 @@ def run(rep, idx, tier):
             if whole:
                 rep.unk("C12.1", c.fi.site, f"{cname} storage update", "storage is updated as a whole; the per-bit table cannot be compared")
                 continue
+            if len(bits) != 1 and (getattr(c.t, "zipped_loops", None) or getattr(c.t, "unsupported", None) or
+                                   any(d_.domain == "sync" for d_ in c.t.drivers)):
+                # the storage bits are reached another way (the items of zip(storage, set, mask), a helper ...): sync assignments
+                # exist, but not as `storage[i] <= ...` over a loop index
+                rep.unk("C12.1", c.fi.site, f"{cname} storage update", f"found {len(bits)} per-bit driver families over the storage register, but the "
+                        "function has registered assignments of another shape (zipped bit iteration, helper): the per-bit table is not derived")
+                continue
             if len(bits) != 1:
                 rep.bad("C12.1", c.fi.site, f"{cname} storage update", f"expected one per-bit driver family over the storage register, found {len(bits)}")
                 continue
